@@ -92,13 +92,34 @@ Theorem C13_dropped_has_kept_better_refuted : exists L reg hits out h,
 Proof. exact C13_dropped_has_kept_better_refuted_proof. Qed.
 Print Assumptions C13_dropped_has_kept_better_refuted.
 
-(* "the merge ... spanning them" is FALSE (finding class merge_truncates): A[10,20) + A[10,80),
-   profile length 100, merge to A[10,20), which is then dropped as incomplete: a complete hit vanishes *)
-Theorem C13_merge_spans_refuted : exists L reg hits h,
-  In h hits /\ is_complete L h = true /\ refine_gene true L reg hits = Ok [] /\
-  exists a b, In a hits /\ In b hits /\ prof a = prof b /\ en (merge a b) < en b.
-Proof. exact C13_merge_spans_refuted_proof. Qed.
-Print Assumptions C13_merge_spans_refuted.
+(* "the merge ... spanning them" (finding class merge_truncates, repaired: HMMResult.merge takes the
+   least start and the greatest end): the merge of two hits of a profile contains both *)
+Theorem C13_merge_spans : forall a b, prof a = prof b ->
+  covers (merge a b) a = true /\ covers (merge a b) b = true.
+Proof. exact C13_merge_spans_proof. Qed.
+Print Assumptions C13_merge_spans.
+
+(* ... so merging loses no residue.  Neighbour mode: a complete hit that survives the overlap pass
+   lies inside a returned hit of its profile (before the repair A[10,20) + A[10,80) gave A[10,20), which
+   was then dropped as incomplete) *)
+Theorem C13_merge_keeps_complete : forall L reg hits out r1 x,
+  refine_gene true L reg hits = Ok out -> remove_overlapping_l L (canonical hits) = Ok r1 ->
+  In x r1 -> is_complete L x = true ->
+  exists h, In h out /\ prof h = prof x /\ st h <= st x /\ en x <= en h.
+Proof. exact C13_merge_keeps_complete_proof. Qed.
+Print Assumptions C13_merge_keeps_complete.
+
+(* the same as the boolean the check evaluates on every neighbour-mode output of the implementation *)
+Theorem C13_merge_keeps_complete_all : forall L reg ghits out,
+  refine_all true L reg ghits = Ok out -> coverage_all L ghits out = true.
+Proof. exact refine_all_coverage. Qed.
+Print Assumptions C13_merge_keeps_complete_all.
+
+(* default mode: every hit handed to _merge_domain_list lies inside a hit it returns *)
+Theorem C13_merge_list_covers : forall L l x, In x l ->
+  exists h, In h (merge_domain_list L l) /\ prof h = prof x /\ st h <= st x /\ en x <= en h.
+Proof. intros L l x H. destruct (merge_domain_list_covers L l x H) as [h [Hh Hc]]. exists h. split; [exact Hh|exact Hc]. Qed.
+Print Assumptions C13_merge_list_covers.
 
 (* ---- hmmer.remove_overlapping: no two different returned hits overlap by overlap_limit or more
    (whole output, across groups), and every returned hit is an input hit *)
@@ -112,25 +133,31 @@ Print Assumptions C13_hmmer_no_overlap.
 (* the best-ranked hit of every group survives *)
 Theorem C13_hmmer_best_kept : forall limit cutoffs hits out,
   hmmer_remove_overlapping limit cutoffs hits = Ok out ->
-  let cut := fun i => match nth (Z.to_nat i) cutoffs None with Some c => c | None => 0 end in
-  forall G b rest, In G (hh_groups limit (sort_by hh_start_lt hits)) ->
+  let cut := cut_of cutoffs in
+  forall G b rest, In G (hh_groups limit (sort_by (hh_sort_lt cut) hits)) ->
     sort_by (rank_lt cut) G = b :: rest -> In b out.
 Proof. exact hmmer_best_kept. Qed.
 Print Assumptions C13_hmmer_best_kept.
 
-(* "every returned hit is an input hit" fails as a statement about multiplicity (finding class
-   hmmer_first_short_duplicate): one hit shorter than overlap_limit is returned twice *)
-Theorem C13_hmmer_nodup_refuted : exists limit cutoffs h,
-  hmmer_remove_overlapping limit cutoffs [h] = Ok [h; h].
-Proof. exact C13_hmmer_nodup_refuted_proof. Qed.
-Print Assumptions C13_hmmer_nodup_refuted.
+(* "every returned hit is an input hit", with multiplicity (finding class
+   hmmer_first_short_duplicate, repaired: the grouping loop starts at hits[1]): no hit is returned
+   more often than the input list holds it - the boolean the check evaluates on every output *)
+Theorem C13_hmmer_no_extra_copies : forall limit cutoffs hits out,
+  hmmer_remove_overlapping limit cutoffs hits = Ok out ->
+  (forall x, hcount x out <= hcount x hits) /\ hh_nomult hits out = true.
+Proof.
+  intros limit cutoffs hits out H. split; [exact (hmmer_multiplicity limit cutoffs hits out H)|exact (hmmer_nomult limit cutoffs hits out H)].
+Qed.
+Print Assumptions C13_hmmer_no_extra_copies.
 
-(* order independence of hmmer.remove_overlapping as a list is FALSE (finding class
-   hmmer_equal_start_order): kept hits with equal starts come out in input order *)
-Theorem C13_hmmer_order_refuted : exists limit cutoffs l l',
-  Permutation l l' /\ hmmer_remove_overlapping limit cutoffs l <> hmmer_remove_overlapping limit cutoffs l'.
-Proof. exact C13_hmmer_order_refuted_proof. Qed.
-Print Assumptions C13_hmmer_order_refuted.
+(* order independence of hmmer.remove_overlapping as a list (finding class hmmer_equal_start_order,
+   repaired: both sorts use (protein_start, ranking_stats)); scores and cutoffs positive is the
+   domain on which the model's integer comparison is the code's float comparison *)
+Theorem C13_hmmer_order_independent : forall limit cutoffs l l',
+  (forall h, In h l -> 0 < h_sc h /\ 0 < cut_of cutoffs (h_id h)) -> Permutation l l' ->
+  hmmer_remove_overlapping limit cutoffs l = hmmer_remove_overlapping limit cutoffs l'.
+Proof. exact hmmer_perm. Qed.
+Print Assumptions C13_hmmer_order_independent.
 
 (* ---- docking domains: a gene's hit survives iff it is not a docking domain or lies within 50
    residues of either end; genes left without hits are absent *)
@@ -195,8 +222,20 @@ Example C13_ex_hmmer :
 Proof. vm_compute. reflexivity. Qed.
 Example C13_ex_hmmer_group :
   In [mkHH 0 0 50 80; mkHH 1 20 70 100; mkHH 0 45 90 60]
-     (hh_groups 10 (sort_by hh_start_lt [mkHH 0 0 50 80; mkHH 1 20 70 100; mkHH 0 45 90 60; mkHH 1 100 130 40; mkHH 0 0 50 80])).
+     (hh_groups 10 (sort_by (hh_sort_lt (cut_of [Some 40; Some 100])) [mkHH 0 0 50 80; mkHH 1 20 70 100; mkHH 0 45 90 60; mkHH 1 100 130 40; mkHH 0 0 50 80])).
 Proof. vm_compute. left. reflexivity. Qed.
+(* the witnesses of the repaired findings *)
+Example C13_ex_merge_witness :
+  refine_gene true (fun _ => 100) (fun _ => false) [mkHit 0 10 20 5 20; mkHit 0 10 80 1 100] = Ok [mkHit 0 10 80 1 100]
+  /\ refine_gene false (fun _ => 100) (fun _ => false) [mkHit 0 0 100 5 20; mkHit 0 10 50 1 100] = Ok [mkHit 0 0 100 1 100].
+Proof. split; vm_compute; reflexivity. Qed.
+Example C13_ex_hmmer_short_first :
+  hmmer_remove_overlapping 10 [Some 10] [mkHH 0 0 5 20] = Ok [mkHH 0 0 5 20].
+Proof. vm_compute. reflexivity. Qed.
+Example C13_ex_hmmer_equal_start :
+  hmmer_remove_overlapping 10 [Some 100; Some 100] [mkHH 1 43 52 20; mkHH 0 43 45 20] = Ok [mkHH 1 43 52 20; mkHH 0 43 45 20]
+  /\ hmmer_remove_overlapping 10 [Some 100; Some 100] [mkHH 0 43 45 20; mkHH 1 43 52 20] = Ok [mkHH 1 43 52 20; mkHH 0 43 45 20].
+Proof. split; vm_compute; reflexivity. Qed.
 Example C13_ex_docking :
   filter_docking [(300, [mkDH 0 1 10 40; mkDH 1 1 100 150; mkDH 2 0 100 150; mkDH 3 1 200 260]); (300, [mkDH 4 1 100 150])]
   = [(300, [mkDH 0 1 10 40; mkDH 2 0 100 150; mkDH 3 1 200 260])].
